@@ -275,6 +275,19 @@ func (p *ProdGen) Replacement(cls string) sdk.Msg {
 		in := &InMsg{Version: ver, Src: 4, Dst: dst, Nonce: uint64(r.Intn(50)), Sender: modulePadded, Recipient: e.M.Messengers[dst], Caller: make([]byte, 32), Body: body}
 		raw := in.Bytes()
 		return &ct.MsgReplaceDepositForBurn{From: from, OriginalMessage: raw, OriginalAttestation: e.Attest(raw, 0), NewDestinationCaller: Structured32(7), NewMintRecipient: Structured32(6)}
+	case "attested-crafted-burn-token":
+		// honestly attested module-sent burn message that names another burn token than this chain's (hash of another
+		// denom, a hash with leading zero bytes, all-zero): a replacement keeps the token of its original
+		from := Acct(r.Intn(NAccounts))
+		dst := p.dstWithMessenger()
+		if len(e.M.Messengers[dst]) != 32 {
+			return nil
+		}
+		tok := [][]byte{ref.Keccak256([]byte("ueure")), ref.Keccak256([]byte("uusdc496")), make([]byte, 32), append(make([]byte, 31), 7), Structured32(0x33)}[r.Intn(5)]
+		body := BurnBody(0, tok, Structured32(5), big.NewInt(int64(1+r.Intn(1000))), ref.Pad32(addrBytes(from)))
+		in := &InMsg{Version: 0, Src: 4, Dst: dst, Nonce: uint64(r.Intn(50)), Sender: modulePadded, Recipient: e.M.Messengers[dst], Caller: make([]byte, 32), Body: body}
+		raw := in.Bytes()
+		return &ct.MsgReplaceDepositForBurn{From: from, OriginalMessage: raw, OriginalAttestation: e.Attest(raw, 0), NewDestinationCaller: Structured32(7), NewMintRecipient: Structured32(6)}
 	case "attested-unissued-nonce":
 		// an honestly attested message that this chain never emitted, carrying a nonce at / around the counter
 		from := Acct(r.Intn(NAccounts))
@@ -307,7 +320,7 @@ func (p *ProdGen) Replacement(cls string) sdk.Msg {
 
 var ReplacementClasses = []string{"attested-unissued-nonce", "own-message", "others-message", "unattested", "rotated-set", "user-132-as-deposit", "new-caller-shapes",
 	"own-deposit", "others-deposit", "deposit-via-replace-message", "deposit-unattested", "new-recipient-shapes", "foreign-domain", "forged-module-message",
-	"own-deposit-same-recipient", "own-deposit-unchanged", "own-message-unchanged", "attested-crafted-version", "own-message-body-is-original"}
+	"own-deposit-same-recipient", "own-deposit-unchanged", "own-message-unchanged", "attested-crafted-version", "own-message-body-is-original", "attested-crafted-burn-token"}
 
 // FailingProducer returns a producer message that must fail for the named reason.
 func (p *ProdGen) FailingProducer(kind string) []sdk.Msg {
